@@ -169,6 +169,17 @@ check("C20", "exploration",
       "DESIGN.md section 3 C20")
 
 
+check("C18", "exploration",
+      "Flat generated declarations over Int/Bits/Data (all sizing modes, kept regex delimiters, class endianness / search window) x 8 "
+      "subsets of fixed fields incl. constrained Any(startswith/endswith/contains) x corpora (the source encoding, other valid "
+      "encodings, near misses inside fixed fields, random strings): building the regexp must not raise; "
+      "unpack(r)==pattern => regexp matches r; filter() with and without the pre-filter must return the same packets.",
+      "Equality is the library's own == with the pattern on the left. Known findings F15 (size from ==/!= with an Any field) and F16 "
+      "('$' at the search-window edge) are classified by mechanism from the witness.",
+      "runtime monitoring: soundness oracle for the derived regexp over pattern x corpus executions",
+      "DESIGN.md section 3 C18")
+
+
 def build():
     import glob
     props = []
